@@ -532,6 +532,106 @@ func setupWrites(p *pkgInfo, typ string) map[string]bool {
 	return out
 }
 
+// sliceElementWrites finds, in the run-time methods of typ, writes into the backing array of a
+// field of typ: the field itself or a local variable that was assigned the field (or a reslice of it).
+func sliceElementWrites(p *pkgInfo, typ string, rt map[string]bool) []access {
+	fields := structFields(p, typ)
+	var out []access
+	for _, f := range p.files {
+		for _, d := range f.Decls {
+			fd, ok := d.(*ast.FuncDecl)
+			if !ok || fd.Body == nil || recvTypeName(fd) != typ || len(fd.Recv.List[0].Names) == 0 {
+				continue
+			}
+			fnName := typ + "." + fd.Name.Name
+			if !rt[fnName] {
+				continue
+			}
+			rv := fd.Recv.List[0].Names[0].Name
+			// the field an expression is a (reslice of a) view of: rv.F, rv.F[a:b], alias, alias[a:b]
+			alias := map[string]string{}
+			var fieldOf func(e ast.Expr) string
+			fieldOf = func(e ast.Expr) string {
+				switch v := e.(type) {
+				case *ast.ParenExpr:
+					return fieldOf(v.X)
+				case *ast.SliceExpr:
+					return fieldOf(v.X)
+				case *ast.SelectorExpr:
+					if id, ok := v.X.(*ast.Ident); ok && id.Name == rv {
+						if _, isF := fields[v.Sel.Name]; isF {
+							return v.Sel.Name
+						}
+					}
+				case *ast.Ident:
+					return alias[v.Name]
+				}
+				return ""
+			}
+			// aliases first (flow-insensitive)
+			for pass := 0; pass < 2; pass++ {
+				ast.Inspect(fd.Body, func(n ast.Node) bool {
+					switch v := n.(type) {
+					case *ast.AssignStmt:
+						for i, l := range v.Lhs {
+							if id, ok := l.(*ast.Ident); ok && i < len(v.Rhs) {
+								if fld := fieldOf(v.Rhs[i]); fld != "" {
+									if t := fields[fld]; strings.HasPrefix(t, "[]") || strings.HasSuffix(t, "Pool") || strings.HasPrefix(t, "map[") {
+										alias[id.Name] = fld
+									}
+								}
+							}
+						}
+					case *ast.ValueSpec:
+						for i, nm := range v.Names {
+							if i < len(v.Values) {
+								if fld := fieldOf(v.Values[i]); fld != "" {
+									alias[nm.Name] = fld
+								}
+							}
+						}
+					}
+					return true
+				})
+			}
+			add := func(fld string, pos token.Pos) {
+				if fld != "" {
+					out = append(out, access{p.name, typ, fld, fnName, "write", p.fset.Position(pos).Line})
+				}
+			}
+			mutators := map[string]bool{"copy": true, "sort.Slice": true, "sort.SliceStable": true, "sort.Sort": true, "sort.Stable": true,
+				"slices.Sort": true, "slices.SortFunc": true, "slices.SortStableFunc": true, "slices.Delete": true, "slices.DeleteFunc": true,
+				"slices.Insert": true, "slices.Reverse": true, "slices.Compact": true, "slices.CompactFunc": true, "slices.Replace": true, "clear": true}
+			ast.Inspect(fd.Body, func(n ast.Node) bool {
+				switch v := n.(type) {
+				case *ast.AssignStmt:
+					for _, l := range v.Lhs {
+						if ix, ok := l.(*ast.IndexExpr); ok {
+							add(fieldOf(ix.X), ix.Pos())
+						}
+					}
+				case *ast.IncDecStmt:
+					if ix, ok := v.X.(*ast.IndexExpr); ok {
+						add(fieldOf(ix.X), ix.Pos())
+					}
+				case *ast.CallExpr:
+					name := strings.Join(strings.Fields(p.src(v.Fun)), "")
+					if name == "append" && len(v.Args) > 0 {
+						// appending to a reslice writes into the array the field shares
+						if se, ok := v.Args[0].(*ast.SliceExpr); ok {
+							add(fieldOf(se), v.Pos())
+						}
+					} else if mutators[name] && len(v.Args) > 0 {
+						add(fieldOf(v.Args[0]), v.Pos())
+					}
+				}
+				return true
+			})
+		}
+	}
+	return out
+}
+
 // goroutines started by l4proxy's Handler.proxy and the Connection methods they call
 type proxySite struct {
 	name   string
@@ -637,6 +737,13 @@ func emitAccessC08(pk map[string]*pkgInfo) string {
 				if a.kind != "read" {
 					rtWritten[a.field] = true
 				}
+			}
+			// writes through the backing array of a slice-typed field: directly (h.F[i] = x,
+			// append(h.F[:i], ...), copy/sort/slices.Delete on it) or through a local alias (v := h.F)
+			for _, a := range sliceElementWrites(p, typ, rt) {
+				all = append(all, accessC08{a.pkg + "." + a.typ + "." + a.field, a.fn, "write", true})
+				seenField[a.field] = true
+				rtWritten[a.field] = true
 			}
 			for f := range seenField {
 				if sw[f] && !rtWritten[f] {
